@@ -211,7 +211,7 @@ def replay(ctx, window_cases, node_cases, label, selftests=(), max_devs=60):
     if selftests:
         ok = len(st_seen) == len(selftests)
         cov["binding_selftest"] = {"corrupted_cases": len(selftests), "detected": len(st_seen)}
-        if not ok:
+        if not ok and not ctx.violations:
             raise vlib.Inconclusive("binding self-test failed: %d of %d corrupted expectations were accepted"
                                     % (len(selftests) - len(st_seen), len(selftests)))
     return summ
